@@ -248,3 +248,68 @@ def state_saved_after_failed_restore(chk, prop="C18"):
     if not happened:
         chk.obligation("scenario:failed-restore", "audit", False, "no run had Core._load_state raise")
     return len(cases)
+
+
+def _phase(code):
+    return {3: 1, 2: 3, 1: 4}.get(code, 0 if code >= 200 else 2)
+
+
+def stops_complete_per_instance(chk, prop="C18"):
+    """Two or more running actors matched by one registered frontend / backend class (the instance the
+    run command started spawns siblings of its own class), the first one with a slow on_stop: every
+    instance must have finished stopping (on_stop done) before any component of a later phase starts
+    to stop (frontends, core, backends, audio, mixer), and all of them before run() returns."""
+    base = {"hm": 1, "om": OK, "oa": OK, "early": 0, "obs": [OK, OK], "oc": OK, "ofs": [OK, OK], "restore": 1}
+    cases = []
+    for kind in ("frontend", "backend"):
+        for n, slow_index in ((1, 0), (2, 0), (2, 1)):
+            cases.append(dict(base, ol=LQUIT if n == 1 else LKBD,
+                              siblings={"kind": kind, "n": n, "slow": 0.4, "slow_index": slow_index}))
+    cases.append(dict(base, ol=LQUIT, siblings={"kind": "frontend", "n": 0, "slow": 0.2}))
+    results = c18.run_parallel("shutdown", cases, per_case_timeout=40, jobs=7, chunk=1)
+    for i, case in enumerate(cases):
+        r = results.get(i)
+        if r is None or r.get("skipped"):
+            continue
+        sib = case["siblings"]
+        chk.count(1, nontrivial_key=("siblings", sib["kind"], sib["n"], sib.get("slow_index", 0)))
+        chk.dist(f"instances_per_class={1 + sib['n']}")
+        key = {"property": prop, "instances": "several" if sib["n"] else "one", "kind": sib["kind"]}
+        scenario = (f"{sib['kind']} class 0 runs {1 + sib['n']} instance(s) (siblings started from its on_start); "
+                    f"on_stop of instance {sib.get('slow_index', 0)} takes {sib['slow']} s")
+        if "hang" in r or "harness_error" in r:
+            chk.monitor_failure("stops_complete_per_instance", {**key, "hang": True}, "RootCommand.run did not return",
+                                {"scenario": scenario, "oracle": case, "detail": r})
+            continue
+        if f"instances={1 + sib['n']}" not in r["loop"]:
+            chk.notes.append(f"{prop}: sibling scenario did not come up: {r['loop']}")
+            continue
+        ev, at_ret = r["stop_events"], r["stop_events_at_return"]
+        begun = [(c, n) for k, c, n in at_ret if k == "begin"]
+        ended = [(c, n) for k, c, n in at_ret if k == "end"]
+        unfinished = [b for b in begun if b not in ended]
+        obs = {"status": r["status"], "escaped": r["escaped"], "left": r["left"], "stop_events_at_return": at_ret,
+               "stop_events_later": ev[len(at_ret):]}
+        if unfinished or r["left"] or r["escaped"]:
+            chk.monitor_failure(
+                "no_component_left_running", key,
+                f"when RootCommand.run returned {len(unfinished)} component instance(s) were still shutting down "
+                f"(class code, instance): {unfinished}",
+                {"scenario": scenario, "oracle": case, "observed": obs})
+        # per-instance order: nothing of a later phase may begin to stop before this instance has ended
+        open_, bad = {}, None
+        for k, c, n in ev:
+            if k == "begin":
+                late = [(oc, on) for (oc, on) in open_ if _phase(oc) < _phase(c)]
+                if late and bad is None:
+                    bad = {"began": [c, n], "while_still_stopping": late}
+                open_[(c, n)] = True
+            else:
+                open_.pop((c, n), None)
+        if bad:
+            chk.monitor_failure(
+                "stop_order", {**key, "per_instance": True},
+                "a component of a later phase began to stop while an instance of an earlier phase was still "
+                "shutting down (order frontends, core, backends, audio, mixer)",
+                {"scenario": scenario, "oracle": case, "violation": bad, "observed": obs})
+    return len(cases)
